@@ -15,7 +15,7 @@ from checks.common import confirm_with, replay_with
 
 HEAD = "INIT TraceInit\nNEXT TraceNext\nINVARIANT Accepted\n"
 CONSTS = {"Family": '"none"', "MaxItems": "0", "MaxDefs": "0", "MaxUses": "0"}
-FAMILIES = ["case", "ws", "sz", "idot", "nbsp", "esc"]
+FAMILIES = ["case", "ws", "sz", "idot", "nbsp", "esc", "bs"]
 
 
 def cfg(family, items, defs, uses):
